@@ -18,7 +18,7 @@ def run(ctx):
                          "detail": dis[0]}, {}))
         return out, st
     schedcheck.run(ctx, "C01", PROPS,
-                   [("subslot", 150, 1500), ("core", 60, 600), ("alap", 60, 500), ("alapcore", 40, 400), ("sd", 80, 800), ("sdteam", 60, 600), ("hours", 30, 200)],
+                   [("subslot", 150, 1500), ("core", 60, 600), ("alap", 60, 500), ("alapcore", 40, 400), ("sd", 80, 800), ("sdteam", 60, 600), ("hours", 30, 200), ("alapsub", 80, 600), ("alapslot0", 20, 150)],
                    ["c01"],
                    ["seconds are exact rationals in the model, floats in the code (compared to 1 ms)",
                     "scheduler-level theorem covers the whole-slot (core) dialect; sub-slot sharing is covered by the cell theorem + operation-sequence correspondence + the oracle on whole sub-slot projects"],
